@@ -118,11 +118,19 @@ SlotDone(s, sc, c, m) ==
 \* bytes, what it wrote is owed only once something later flushes or the connection ends)
 SlotFlushes(x) == x.cls # "ok" \/ (x.how = "respond" /\ ~x.rfail) \/ x.how \in {"drop", "panic", "upgrade"} \/ (x.how = "writer" /\ x.wflush)
 
-\* number of leading slots that are done
+\* the slot's response has been written as far as that depends on the server alone: the handler has finished, or
+\* it has started a finish that writes its response before anything that can wait for the client (respond, drop
+\* and panic write -- once it is their turn -- and only then discard what is left of the request body)
+SlotWrote(s, sc, c, m) ==
+    \/ SlotDone(s, sc, c, m)
+    \/ /\ M(sc, c, m).cls = "ok" /\ s.ans[c + 1][m + 1] = "started"
+       /\ M(sc, c, m).how \in {"respond", "drop", "panic"} /\ ~M(sc, c, m).rfail
+
+\* number of leading slots whose responses have been written
 RECURSIVE DonePrefix(_, _, _, _)
 DonePrefix(s, sc, c, i) ==
     IF i > Len(Slots(s, c)) THEN i - 1
-    ELSE IF SlotDone(s, sc, c, Slots(s, c)[i]) THEN DonePrefix(s, sc, c, i + 1) ELSE i - 1
+    ELSE IF SlotWrote(s, sc, c, Slots(s, c)[i]) THEN DonePrefix(s, sc, c, i + 1) ELSE i - 1
 
 \* the connection has nothing more to parse
 Stopped(s, sc, c) ==
@@ -168,6 +176,12 @@ PlainUpTo(sc, c, m) == \A k \in 0..m : M(sc, c, k).cls = "ok" /\ M(sc, c, k).bk 
 SomethingQueued(s, sc) ==
     \E c \in 0..(NC(sc) - 1) : /\ s.fault[c + 1] \in {"none", "half"}
                                 /\ \E m \in 0..(NM(sc, c) - 1) : Deliverable(s, sc, c, m) /\ m \notin s.deliv[c + 1]
+
+\* how many
+QueuedCount(s, sc) ==
+    Cardinality({cm \in UNION {{<<c, m>> : m \in 0..(NM(sc, c) - 1)} : c \in 0..(NC(sc) - 1)} :
+                    /\ s.fault[cm[1] + 1] \in {"none", "half"}
+                    /\ Deliverable(s, sc, cm[1], cm[2]) /\ cm[2] \notin s.deliv[cm[1] + 1]})
 
 CFault(s, sc, e, f) == [s |-> [s EXCEPT !.fault[e.c + 1] = f], v |-> <<>>]
 
